@@ -348,3 +348,60 @@ fn c07_minmax_step_decimal_bytes_logical() {
 fn c07_minmax_step_decimal_bytes_converted() {
     minmax_step_decimal_flba(true);
 }
+
+fn descr_f16() -> ColumnDescriptor {
+    use crate::basic::{LogicalType, Type as PhysicalType};
+    use crate::schema::types::{ColumnPath, Type};
+    use std::sync::Arc;
+    let tpe = Type::primitive_type_builder("h", PhysicalType::FIXED_LEN_BYTE_ARRAY)
+        .with_length(2)
+        .with_logical_type(Some(LogicalType::Float16))
+        .build()
+        .unwrap();
+    ColumnDescriptor::new(Arc::new(tpe), 0, 0, ColumnPath::from("h"))
+}
+
+//@ tier: quick
+//@ timeout: 600
+//@ functions: parquet::column::writer::{is_nan, update_min, update_max, compare_greater, compare_greater_f16} for FIXED_LEN_BYTE_ARRAY(2) Float16 columns
+//@ bound: every 16-bit pattern as a Float16 value of a real Float16 ColumnDescriptor: is_nan is true exactly for the IEEE NaNs (exponent all ones AND non-zero mantissa — infinities are numbers); one min/max step with an arbitrary non-NaN value and arbitrary non-NaN bounds keeps min <= value <= max in IEEE totalOrder and a NaN value never replaces a bound; unwind 8
+//@ stub: alloc::fmt::format -> empty String
+#[kani::proof]
+#[kani::unwind(8)]
+#[kani::stub(alloc::fmt::format, stub_format)]
+fn c07_float16_nan_and_order() {
+    let descr = descr_f16();
+    let mk = |bits: u16| {
+        let leaked: &'static [u8; 2] = Box::leak(Box::new(bits.to_le_bytes()));
+        FixedLenByteArray::from(ByteArray::from(bytes::Bytes::from_static(&leaked[..])))
+    };
+    let bits_of = |f: &FixedLenByteArray| u16::from_le_bytes([f.data()[0], f.data()[1]]);
+    let is_nan_bits = |b: u16| (b & 0x7C00) == 0x7C00 && (b & 0x03FF) != 0;
+    // sign-magnitude key of IEEE totalOrder for non-NaN halves
+    let key = |b: u16| if b & 0x8000 != 0 { -((b & 0x7FFF) as i32) - 1 } else { (b & 0x7FFF) as i32 };
+    let v: u16 = kani::any();
+    let val = mk(v);
+    let info = descr.self_type().get_basic_info();
+    assert!(is_nan(info, &val) == is_nan_bits(v), "NaN = exponent all ones and non-zero mantissa; infinities are not NaN");
+    let lo: u16 = kani::any();
+    let hi: u16 = kani::any();
+    kani::assume(!is_nan_bits(lo) && !is_nan_bits(hi) && key(lo) <= key(hi));
+    let mut min = Some(mk(lo));
+    let mut max = Some(mk(hi));
+    update_min(&descr, &val, &mut min);
+    update_max(&descr, &val, &mut max);
+    let (mn, mx) = (bits_of(min.as_ref().unwrap()), bits_of(max.as_ref().unwrap()));
+    if is_nan_bits(v) {
+        assert!(mn == lo && mx == hi, "a NaN never becomes a bound");
+    } else {
+        assert!(key(mn) <= key(v) && key(v) <= key(mx), "bounds contain the value in totalOrder");
+        assert!((mn == lo || mn == v) && (mx == hi || mx == v), "attained");
+    }
+    kani::cover!(v == 0x7C00 && mx == 0x7C00 && hi != 0x7C00, "+Inf becomes the maximum");
+    kani::cover!(v == 0xFC00 && mn == 0xFC00 && lo != 0xFC00, "-Inf becomes the minimum");
+    kani::cover!(is_nan_bits(v));
+    std::mem::forget(min);
+    std::mem::forget(max);
+    std::mem::forget(val);
+    std::mem::forget(descr);
+}
